@@ -297,8 +297,9 @@ def conditional(ctx, ci):
   r = ei.node.body[-1]
   parts = []
   if isinstance(r, ast.Return) and isinstance(r.value, ast.BinOp) and isinstance(r.value.op, ast.Add):
-    parts = [r.value.left, r.value.right]
-  ok = len(parts) == 2 and norm_text(parts[0].func) == 'self._control_encoder_decoder.events_to_input' and norm_text(parts[1].func) == 'self._target_encoder_decoder.events_to_input'
+    # the two halves may be named in locals first
+    parts = [U.expand_locals(ei.node, r.value.left, at=r), U.expand_locals(ei.node, r.value.right, at=r)]
+  ok = len(parts) == 2 and all(isinstance(p_, ast.Call) for p_ in parts) and norm_text(parts[0].func) == 'self._control_encoder_decoder.events_to_input' and norm_text(parts[1].func) == 'self._target_encoder_decoder.events_to_input'
   okp = False
   if ok:
     try:
